@@ -247,12 +247,13 @@ def assemble (numTerms : Nat) (es : List (Nat × Merged)) : List Tree :=
   if es.all (fun e => !e.2.isConflict) then [buildTree es 0]
   else (List.range numTerms).map (buildTree es)
 
-/-- The merge of `ts` (one directory level per unit of fuel).  The asynchronous work queue of
-`TreeMerger::merge` is replaced by this direct recursion: every basename is completed exactly once
-and `into_backend_trees` reads `resolved`/`conflicts` through sorted maps, so the completion order
+/-- The merge of `ts`; fuel `f` suffices for trees of height `≤ f` (with no fuel only empty trees can
+be merged, and their merge is the empty tree).  The asynchronous work queue of `TreeMerger::merge`
+is replaced by this direct recursion: every basename is completed exactly once and
+`into_backend_trees` reads `resolved`/`conflicts` through sorted maps, so the completion order
 cannot influence the result. -/
 def mergeTreesF (sc : SameChange) (cm : ContentMerge) : Nat → List Tree → List Tree
-  | 0, ts => ts
+  | 0, _ => [.nil]
   | f + 1, ts =>
     assemble ts.length
       ((allNames ts).map fun n => (n, mergeEntry sc cm (mergeTreesF sc cm f) (ts.map (·.lookup n))))
@@ -263,7 +264,7 @@ def maxHeight (ts : List Tree) : Nat := (ts.map Tree.height).foldr max 0
 def mergeTrees (sc : SameChange) (cm : ContentMerge) (ts : List Tree) : List Tree :=
   match ts with
   | [t] => [t]
-  | _ => mergeTreesF sc cm (maxHeight ts + 1) ts
+  | _ => mergeTreesF sc cm (maxHeight ts) ts
 
 /-- the per-path merge: what the merger does with the terms of one path taken on their own -/
 def mergeValue (sc : SameChange) (cm : ContentMerge) (vals : MVal) : MVal :=
